@@ -350,6 +350,35 @@ theorem isotropic_scale_invariant (svd : Mat d d ℝ → SVD d ℝ) (src tgt : A
   funext i
   field_simp
 
+/-- **Isotropic preconditioning of rigidly related sets, rank-deficient (coplanar) sets included**: here the
+    cross-covariance is singular (`isotropic_scale_invariant` does not apply), but both calls return `[Q τ; 0 1]`. -/
+theorem isotropic_scale_invariant_rigid (svd : Mat d d ℝ → SVD d ℝ) (src tgt : Array (Tab d ℝ)) (corr : List (Nat × Nat))
+    (s : ℝ) (hs : 0 < s) (Q : Matrix (Fin d) (Fin d) ℝ) (τ : Fin d → ℝ) (hQ : Qᵀ * Q = 1) (hQd : Q.det = 1)
+    (hne : corr ≠ []) (hin : InRange src tgt corr) (hrigid : RigidOn (Nat.le_refl d) Q τ src tgt corr)
+    (hrank : d - 1 ≤ (scatterL (srcPts (Nat.le_refl d) src corr)).rank)
+    (hsvd : OracleOK (Nat.le_refl d) svd src tgt corr)
+    (hsvd' : OracleOK (Nat.le_refl d) svd (precondition d s src) (precondition d s tgt) corr) :
+    Matrix.of (findPre d d (Nat.le_refl d) (Nat.le_succ d) svd src tgt corr s s).toFn = estC svd src tgt corr := by
+  rw [exact_recovery_rank_deficient svd src tgt corr Q τ hQ hQd hne hin hrigid hrank hsvd]
+  unfold OracleOK at hsvd'
+  rw [pairsOf_precondition] at hsvd'
+  have hP := pairs_rigid (Nat.le_refl d) hrigid
+  have hPne := pairs_ne (Nat.le_refl d) src tgt hne
+  have hne' : scaleP s (pairsOf (Nat.le_refl d) src tgt corr) ≠ [] := by simpa [scaleP] using hPne
+  have hrank' : d - 1 ≤ (scatterL ((scaleP s (pairsOf (Nat.le_refl d) src tgt corr)).map Prod.fst)).rank := by
+    rw [scaleP_fst, scatterL_scale, Matrix.rank_smul_of_mem_nonZeroDivisors _
+      (mem_nonZeroDivisors_of_ne_zero (mul_pos hs hs).ne'), pairs_fst]
+    exact hrank
+  have hpre : Matrix.of (estimate d d (Nat.le_refl d) (Nat.le_succ d) svd (precondition d s src) (precondition d s tgt) corr).toFn =
+      homMat Q (fun i => τ i * s) := by
+    rw [estimate_cart, pairsOf_precondition]
+    exact specOf_rigid svd hQ hQd (rigid_scale s hP) hne' hsvd' hrank'
+  unfold findPre
+  rw [unscale_homMat _ _ _ s hpre]
+  apply homMat_injective rfl
+  funext i
+  field_simp
+
 /-- **Isotropic preconditioning (homogeneous points).**  `PreconditionedPointSet(points, s)` multiplies the
     homogeneous coordinate by `s` as well; the result is nevertheless that of the plain overload. -/
 theorem isotropic_scale_invariant_homogeneous (svd : Mat d d ℝ → SVD d ℝ) (src tgt : Array (Tab (d + 1) ℝ))
@@ -583,7 +612,7 @@ private noncomputable def e3Q : Matrix (Fin 3) (Fin 3) ℝ := !![0,-1,0;1,0,0;0,
 private noncomputable def e3τ : Fin 3 → ℝ := ![1,2,3]
 private noncomputable def e3V : Matrix (Fin 3) (Fin 3) ℝ := !![0,-1,0;1,0,0;0,0,-1]
 private noncomputable def e3Svd : Mat 3 3 ℝ → SVD 3 ℝ :=
-  fun _ => ⟨fun i j => if i = j then 1 else 0, ![8,2,0], fun i j => e3V i j⟩
+  fun C => ⟨fun i j => if i = j then 1 else 0, if C 0 1 = 8 then ![8,2,0] else ![32,8,0], fun i j => e3V i j⟩
 
 private theorem e3Pairs : pairsOf (Nat.le_refl 3) e3Src e3Tgt e3Corr =
     [(![2,0,0], ![1,4,3]), (![-2,0,0], ![1,0,3]), (![0,1,0], ![0,2,3]), (![0,-1,0], ![2,2,3])] := by
@@ -654,6 +683,23 @@ example : cost (Nat.le_refl 3) e3Src e3Tgt e3Corr (linPart (estC e3Svd e3Src e3T
   least_squares_optimal_3d e3Svd e3Src e3Tgt e3Corr e3Ne e3In e3Oracle 1 0 (by simp) (by simp)
 example : (linPart (estC e3Svd e3Src e3Tgt e3Corr)).det = 1 :=
   (linear_part_proper_rotation 3 (Nat.le_refl 3) (Nat.le_succ 3) e3Svd e3Src e3Tgt e3Corr e3Ne e3In e3Oracle).2
+/-- `isotropic_scale_invariant_rigid` with scale 2 on the coplanar problem (singular cross-covariance) -/
+private theorem e3Oracle2 : OracleOK (Nat.le_refl 3) e3Svd (precondition 3 2 e3Src) (precondition 3 2 e3Tgt) e3Corr := by
+  unfold OracleOK
+  rw [pairsOf_precondition, covL_scale, e3Cov]
+  have hm : ((2 : ℝ) * 2) • (!![0,8,0;-2,0,0;0,0,0] : Matrix (Fin 3) (Fin 3) ℝ) = !![0,32,0;-8,0,0;0,0,0] := by
+    ext i j; fin_cases i <;> fin_cases j <;> simp <;> norm_num
+  rw [hm]
+  refine ⟨?_, ?_, ?_, ?_, ?_⟩
+  · ext i j; fin_cases i <;> fin_cases j <;> simp [e3Svd, Matrix.mul_apply, Fin.sum_univ_three]
+  · ext i j; fin_cases i <;> fin_cases j <;> simp [e3Svd, e3V, Matrix.mul_apply, Fin.sum_univ_three]
+  · intro i; fin_cases i <;> simp [e3Svd]
+  · intro i j hij; fin_cases i <;> fin_cases j <;> simp [e3Svd] at hij ⊢ <;> norm_num
+  · ext i j; fin_cases i <;> fin_cases j <;> simp [e3Svd, e3V, Matrix.mul_apply, Fin.sum_univ_three]
+
+example : Matrix.of (findPre 3 3 (Nat.le_refl 3) (Nat.le_succ 3) e3Svd e3Src e3Tgt e3Corr 2 2).toFn = estC e3Svd e3Src e3Tgt e3Corr :=
+  isotropic_scale_invariant_rigid e3Svd e3Src e3Tgt e3Corr 2 (by norm_num) e3Q e3τ e3Qorth e3Qdet e3Ne e3In e3Rigid e3Rank
+    e3Oracle e3Oracle2
 end Examples3
 
 end Romea.C04
